@@ -245,16 +245,27 @@ def validate_shard(module, lines, tag):
         bad = pos + consumed
         res["events"] += consumed
         reason = [l for l in out.splitlines() if l.startswith("Error:")][:2]
+        overflow = any("Overflow" in r_ for r_ in reason) or any("Overflow" in l_ for l_ in out.splitlines()[:60])
         if bad < len(lines):
             try:
                 ev = json.loads(lines[bad])
-                res["unjudged"].append(dict(case=ev.get("case"), tag=ev.get("tag"), reason=reason))
             except Exception:
-                res["unjudged"].append(dict(case=None, reason=reason))
+                ev = {}
+            if overflow:
+                # exact arithmetic outside 32 bits: the event cannot be recomputed, nothing is claimed about it
+                res["unjudged"].append(dict(case=ev.get("case"), tag=ev.get("tag"), reason=reason))
+            else:
+                # the trace specification is total on every event the unchanged tree produces; an event on which
+                # a property predicate cannot even be evaluated (missing field, wrong shape) does not satisfy it
+                why = [l_.strip() for l_ in out.splitlines() if "Attempted" in l_ or "which is" in l_ or "not in the domain" in l_][:2]
+                res["verdicts"].append(dict(prop=module.replace("Trace_", ""), case=ev.get("case"), tag=ev.get("tag"),
+                                            clauses=["event_cannot_be_evaluated:" + " ".join(why)[:160]]))
         pos = bad + 1
         skips += 1
         if skips > 25:
-            raise ToolError("too many TLC aborts while validating %s: %s" % (module, reason))
+            if overflow:
+                raise ToolError("too many TLC overflows while validating %s: %s" % (module, reason))
+            break   # bounded reporting: enough events of this kind were reported
     return res
 
 
